@@ -27,4 +27,4 @@ def run(ck):
 
 
 def replay(ck, path):
-    run(ck)
+    incr.replay_file(ck, path, run)
